@@ -5,8 +5,8 @@
      ever m id            an entry substate of id exists in m (live or tombstone)
      minted_ids o         the ids carried by a mint operation
      is_ok out            the operation committed
-     ruid_fresh m o       (hypothesis for RUID mints) the generated ids are new to the resource;
-                          Runtime::generate_ruid is outside the model
+     ruid_fresh m o       the ids of a RUID mint are new to the resource (a premise of
+                          C43_only_mutable_fields; derived from the generator model in C43_ruid_fresh_derived)
      immutable_index m i  no declared-mutable field name maps to tuple index i *)
 From Coq Require Import List NArith Bool.
 Import ListNotations.
@@ -71,6 +71,36 @@ Theorem C43_update_spec : forall m id f v,
        forall k, find k (r_store (fst (step m (OUpdate id f v)))) = if nfid_eqb k id then Some (Live d') else find k (r_store m)).
 Proof. exact update_spec. Qed.
 
+(* RUID resources. Runtime::generate_ruid computes hash(transaction hash ++ counter) with a
+   per-transaction counter. With the hash abstracted as H, uniqueness of generated ids rests on two
+   visible hypotheses: H is collision-free (Blake2b-256), and no (transaction hash, counter) pair is
+   used twice in the history (transaction hashes are unique per committed transaction — C07 — and the
+   counter only increases within a transaction): NoDup of all pairs. Then, on a RUID resource created
+   empty, through every history of RUID mints, (failing) explicit mints, burns and updates:
+   - the ids of every RUID mint are new to the resource when it is minted (ruid_fresh is DERIVED),
+   - all ids ever generated are pairwise distinct,
+   - hence C43_only_mutable_fields applies to every step without an opaque freshness assumption. *)
+Theorem C43_ruid_fresh_derived : forall (H : N * N -> N), (forall a b, H a = H b -> a = b) ->
+  forall m gs1 g gs2,
+  r_idtype m = TRUID -> r_store m = [] ->
+  NoDup (concat (map gpairs (gs1 ++ g :: gs2))) ->
+  ruid_fresh (final m (map (to_op H) gs1)) (to_op H g).
+Proof. exact ruid_fresh_derived. Qed.
+Theorem C43_ruid_ids_distinct : forall (H : N * N -> N), (forall a b, H a = H b -> a = b) ->
+  forall gs, NoDup (concat (map gpairs gs)) -> NoDup (map (genid H) (concat (map gpairs gs))).
+Proof. exact ruid_ids_distinct. Qed.
+Theorem C43_only_mutable_fields_ruid : forall (H : N * N -> N), (forall a b, H a = H b -> a = b) ->
+  forall m gs1 g gs2 id d d' i,
+  r_idtype m = TRUID -> r_store m = [] ->
+  NoDup (concat (map gpairs (gs1 ++ g :: gs2))) ->
+  let mk := final m (map (to_op H) gs1) in
+  find id (r_store mk) = Some (Live d) -> find id (r_store (fst (step mk (to_op H g)))) = Some (Live d') ->
+  immutable_index mk i -> nth_error d' i = nth_error d i.
+Proof.
+  intros H Hinj m gs1 g gs2 id d d' i Ht Hs Hnd mk Hb Ha Hi.
+  eapply only_mutable_fields; eauto. eapply ruid_fresh_derived; eauto.
+Qed.
+
 (* non-vacuity: Integer resource, fields b (index 1) and d (index 3) mutable: mint 1 and 2, burn 1,
    re-mint 1 refused (locked), re-mint 2 refused (exists), string id refused, update of c refused,
    update of b goes through and leaves a, c, d *)
@@ -94,3 +124,6 @@ Print Assumptions C43_mint_kind.
 Print Assumptions C43_id_type.
 Print Assumptions C43_only_mutable_fields.
 Print Assumptions C43_update_spec.
+Print Assumptions C43_ruid_fresh_derived.
+Print Assumptions C43_ruid_ids_distinct.
+Print Assumptions C43_only_mutable_fields_ruid.
